@@ -13,6 +13,7 @@ import time
 
 from ref import codec
 from vlib import core
+from vlib import procs
 from vlib.core import Result
 from vlib.core import short
 
@@ -667,11 +668,87 @@ time.sleep(60)
 """
 
 
+HOLD_PIPE_BODY = """
+import os, subprocess
+fd = channel.gateway._io.outfile.fileno()
+os.set_inheritable(fd, True)
+helper = subprocess.Popen(["sleep", "25"], pass_fds=[fd], stdin=subprocess.DEVNULL, stdout=subprocess.DEVNULL, stderr=subprocess.DEVNULL)
+channel.send((os.getpid(), helper.pid))
+channel.receive()
+"""
+
+
+def killed_but_pipe_held(res, spec):
+    """the proxied worker dies, but a helper process it had started still holds its output pipe: the forwarder sees no end
+    of stream; the loss shows when the initiator next sends something to the dead worker (the write fails in the forwarder)"""
+    import execnet
+
+    group = execnet.Group()
+    helper = None
+    label = "kill via (worker dead, its output pipe still held by a helper process)"
+    try:
+        group.makegateway("popen//id=m")
+        gw = group.makegateway("popen//via=m")
+        ch = gw.remote_exec(HOLD_PIPE_BODY)
+        other = gw.remote_exec("channel.receive()")
+        pid, helper = ch.receive(20)
+        os.kill(pid, signal.SIGKILL)
+        procs.wait_gone([pid], 5.0)
+        outcomes = []
+        for k in range(3):
+            try:
+                other.send(k)
+                outcomes.append("accepted")
+            except OSError:
+                outcomes.append("OSError")
+            time.sleep(0.2)
+        res.count("kills")
+        res.case(core.h64("kill-pipe-held"))
+        for name, fn in (("waitclose", lambda: other.waitclose(15)), ("receive", lambda: ch.receive(15))):
+            try:
+                fn()
+                res.violation(f"{name}-silent-after-kill:via", f"{label}: {name}() returned normally (sends: {outcomes})")
+            except EOFError:
+                pass
+            except BaseException as e:  # noqa
+                res.violation(f"{name}-after-kill-{type(e).__name__}:via", f"{label}: {str(e)[-200:]}")
+        gw.join(10)
+        if gw.hasreceiver():
+            res.violation("gateway-still-receiving-after-kill:via", label)
+        try:
+            if group["m"].remote_exec("channel.send(6 * 7)").receive(20) != 42:
+                res.violation("forwarder-gateway-disturbed:via", label)
+        except BaseException as e:  # noqa
+            res.violation("forwarder-gateway-disturbed:via", f"{label}: {type(e).__name__}: {e}")
+        t0 = time.monotonic()
+        try:
+            group.terminate(2.0)
+        except BaseException as e:  # noqa
+            res.violation(f"terminate-raised-after-kill:via:{type(e).__name__}", f"{label}: {str(e)[-300:]}")
+        if time.monotonic() - t0 > 20:
+            res.violation("terminate-slow-after-kill:via", label)
+    except BaseException as e:  # noqa
+        res.violation(f"kill-run-raised:via:{type(e).__name__}", f"{label}: {str(e)[-300:]}")
+    finally:
+        if helper:
+            try:
+                os.kill(helper, signal.SIGKILL)
+            except OSError:
+                pass
+        try:
+            group.terminate(2.0)
+        except BaseException:  # noqa
+            pass
+
+
 def run_kill(spec):
     import execnet
 
     res = Result()
     rng = core.rng_for("C04k", spec["tier"], spec["seed"], spec["spec"])
+    if spec["spec"] == "via":
+        for _ in range(2 if spec["tier"] == "quick" else 20):
+            killed_but_pipe_held(res, spec)
     for run in range(spec["runs"]):
         group = execnet.Group()
         try:
